@@ -153,7 +153,8 @@ fn new_bar_op(rng: &mut Rng, kind: u64, arg: u64, id: usize, w: usize, special: 
         .n(8)
         .s(gen_template(rng, &tag, false))
         .s(gen_line(rng, w, "F", false))
-        .s("");
+        // (the custom key mostly prints nothing; sometimes a text with a line break)
+        .s(if rng.chance(1, 12) { *rng.pick(&["o", "o1\no2", "\n", "o\n"]) } else { "" });
     if rng.chance(1, 3) {
         op = op.s(gen_text(rng, w, "m", 2, special));
     }
@@ -208,7 +209,7 @@ fn bar_op(rng: &mut Rng, b: u64, w: usize, special: bool, fl: Flavor) -> Op {
         12 => Op::new("force_draw").n(b),
         _ => {
             if rng.chance(1, 2) {
-                Op::new("iter_exhaust").n(b).n(rng.below(15))
+                Op::new("iter_exhaust").n(b).n(rng.below(15)).n(rng.below(5))
             } else {
                 Op::new("iter_partial").n(b).n(rng.below(15)).n(rng.below(8))
             }
@@ -224,10 +225,10 @@ impl Check for TermCheck {
         let common = "Every scenario is one seeded operation history executed against the real library on a simulated terminal (own grid + scrollback, deferred wrap) under a virtual clock, in lock-step with an abstract model; after every call the whole transcript (scrollback included) must equal [printed log lines, in order] + [optional static finished bars] + [each member's most recently submitted rendering in logical order], a call that painted nothing must leave the terminal untouched, forced calls must paint. Texts have line widths around k*W-1, k*W, k*W+1, empty and zero-width (SGR-only) lines, embedded newlines; templates are drawn from a model-renderable family (literals, msg, prefix, pos, len, line breaks). Non-trivial: >= 3 executed operations of which >= 2 painted a frame and the run stayed inside the property's scope. Distinct = distinct scenario hash.";
         match self.0 {
             Flavor::C01 => format!("C01 single bar: history of 1..25 (quick) / 1..60 (thorough) calls of tick/inc/set_position/set_message/set_prefix/set_style/set_length/println/suspend/reset/finish*/abandon*/finish_using_style/force_draw/iterator completion with clock gaps (0 ns bursts, around the refresh interval, hours), widths 1..200, optional refresh limiter; additionally the cursor must be left so that the next character lands in column 0 of the first row below the frame. One scenario in eight is a scheduled one (mode sched, shared with C03): threads print through println / inside suspend closures (with scheduling points and virtual sleeps inside) while other simulated threads and optionally a steady ticker update the same bar; at the end the terminal must show the printed lines followed by the current frame and nothing else. {common}"),
-            Flavor::C02 => format!("C02 MultiProgress (sequential part): 1..6 bars, add/insert/insert_from_back/insert_before/insert_after/remove, bar updates, finish*/abandon*, drop of handles (clones), bar-level and mp-level println, clear, suspend, top alignment and bottom alignment. {common}"),
+            Flavor::C02 => format!("C02 MultiProgress (sequential part): 1..6 bars, add/insert/insert_from_back/insert_before/insert_after/remove, bar updates, finish*/abandon*, drop of handles (clones), bar-level and mp-level println, clear, suspend, top alignment and bottom alignment. One scenario in four is a scheduled one (mode sched): 2..4 worker threads update their own bars (inc/set_message/finish/abandon, some own the last handle and drop it) while a structural thread prints, suspends (closure writes to the terminal), clears, switches the alignment, removes its own bar and adds/inserts a late bar (add/insert/insert_from_back/insert_before/insert_after) and an optional third party pokes the bar being removed, under a seeded random/sticky/PCT scheduler; every painted frame is recorded and must show for each bar a state it really had, not older than shown before and not from the future, each member once, in logical order, log lines above the region, and the last frame the final states; printed lines must all be there at the end. {common}"),
             Flavor::C03 => format!("C03 log lines: the C01/C02 generators biased to println (bar and mp level, empty, multi-line, wider than the terminal), suspend with printing closures, finish/drop in every order, remove, clear, and rate limited targets (1..255 Hz) with bursts at one instant so that ordinary draws are skipped while dropped bars wait to be reaped; only violations in which a printed line is missing, duplicated, reordered or overwritten are reported under C03. One scenario in five is a scheduled one (mode sched): one or two threads print (println, external output inside suspend with scheduling points and virtual sleeps inside the closure; bar level and MultiProgress level) while other simulated threads and optionally a steady ticker draw the same bars under a seeded scheduler; every line whose call returned must be on the terminal exactly once at every later flush and at the end, each thread's lines in emission order. {common}"),
             Flavor::C04 => format!("C04 finishing: every ProgressFinish variant through explicit calls, with_finish + drop of the last handle (clones dropped in any order), finish_using_style and iterator exhaustion, after histories that exhaust both rate limiters at the finishing instant; standalone and MultiProgress; the forced final frame must be painted and show the final state; visibly finished dropped bars stay until println/clear/suspend/remove. {common}"),
-            Flavor::C16 => format!("C16 tabs: random order of with_tab_width/set_tab_width (0,1,2,4,8,13), with_style/set_style (templates with literal tabs and a custom key whose output contains tabs), with_message/set_message/with_prefix/set_prefix/finish_with_message/abandon_with_message/with_finish(WithMessage)+drop with 0..5 tabs each (the four builder calls in all 24 orders), ticks; additionally no string passed to the terminal may contain a TAB and message()/prefix() must return the text expanded with the current tab width. {common}"),
+            Flavor::C16 => format!("C16 tabs: random order of with_tab_width/set_tab_width (0,1,2,4,8,13), with_style/set_style (templates with literal tabs and a custom key whose output contains tabs), with_message/set_message/with_prefix/set_prefix/finish_with_message/abandon_with_message/with_finish(WithMessage)+drop with 0..5 tabs each (the four builder calls in all 24 orders), ticks; additionally no string passed to the terminal may contain a TAB and message()/prefix() must return the text expanded with the current tab width. One scenario in ten is a scheduled one (mode sched): one thread sets messages and prefixes with tabs, another changes the tab width, a third draws, on clones of one bar under the seeded scheduler; afterwards message()/prefix() and the frame must be the last texts expanded with the last width. {common}"),
             Flavor::C19 => format!("C19 geometry: terminal sizes W,H in 1..8 (plus a few larger), MultiProgress with up to 12 bars of 1..3 lines and single bars, histories growing the set of bars past the terminal height and shrinking it again; when the bars need more rows than the terminal has, the region must be the leading lines (or leading whole bars) that fit, nothing of the region may scroll out of reach and later frames must leave no remnant. {common}"),
         }
     }
@@ -255,6 +256,9 @@ impl Check for TermCheck {
         }
         if fl == Flavor::C03 && rng.chance(1, 5) {
             return crate::c03s::gen_sched(rng, tier, "C03");
+        }
+        if fl == Flavor::C16 && rng.chance(1, 10) {
+            return crate::c16s::gen_sched(rng, tier);
         }
         if fl == Flavor::C01 && rng.chance(1, 8) {
             return crate::c03s::gen_sched(rng, tier, "C01");
@@ -403,6 +407,7 @@ impl Check for TermCheck {
             return match self.0 {
                 Flavor::C03 => crate::c03s::exec_sched(sc, "C03"),
                 Flavor::C01 => crate::c03s::exec_sched(sc, "C01"),
+                Flavor::C16 => crate::c16s::exec_sched(sc),
                 _ => crate::c02s::exec_sched(sc),
             };
         }
